@@ -588,6 +588,7 @@ func checkFieldsTable(c *fw.Ctx) {
 		}
 		// one obligation per (constructor, routine holding the byte-only check)
 		bad := map[string]string{}
+		dyn := map[string]bool{}
 		seen := map[string]bool{}
 		// the same hard comparison can be reached through several call chains (the hash-mismatch
 		// path re-parses the redacted event, which runs all checks again for that other object):
@@ -612,6 +613,12 @@ func checkFieldsTable(c *fw.Ctx) {
 					}
 				}
 				h := members[0]
+				if !any && underTypeTest(l) {
+					// the byte-only check sits behind a test of a dynamic type (one executor shared
+					// by the constructors of several event layouts): whether this constructor ever
+					// takes that branch is not visible path-insensitively
+					dyn[what] = true
+				}
 				if !any {
 					bad[what] = fmt.Sprintf("the persistable byte-length check at %s (on %s) can run before the non-persistable %s check at %s: an event that only exceeds the byte limit there but breaks a hard limit elsewhere is reported persistable", c.P.Pos(fw.InstrPos(l.iff)), what, h.kind, c.P.Pos(fw.InstrPos(h.iff)))
 				}
@@ -619,13 +626,52 @@ func checkFieldsTable(c *fw.Ctx) {
 		}
 		for _, what := range sortedSet(seen) {
 			construct := short + ": the byte-only limit on " + what + " follows every hard limit"
-			if d, isBad := bad[what]; isBad {
+			if d, isBad := bad[what]; isBad && dyn[what] {
+				c.Undecided(rule, construct, "reached only behind a dynamic type test: "+d)
+			} else if isBad {
 				c.Fail(rule, construct, c.P.Pos(ctor.Pos()), d)
 			} else {
 				c.Ok(rule, construct, c.P.Pos(ctor.Pos()), "")
 			}
 		}
 	}
+}
+
+// underTypeTest: somewhere on the call chain to the site, the step is taken only under a
+// condition on the result of a type assertion / type switch.
+func underTypeTest(x limitSite) bool {
+	for _, ins := range x.chain() {
+		if ins == nil || ins.Block() == nil {
+			continue
+		}
+		for _, f := range fw.DomConds(ins.Block()) {
+			var ops []*ssa.Value
+			ci, isInstr := f.If.Cond.(ssa.Instruction)
+			if !isInstr {
+				continue
+			}
+			for _, o := range ci.Operands(ops) {
+				if o == nil || *o == nil {
+					continue
+				}
+				switch y := (*o).(type) {
+				case *ssa.TypeAssert:
+					return true
+				case *ssa.Extract:
+					if _, ok := y.Tuple.(*ssa.TypeAssert); ok {
+						return true
+					}
+				}
+			}
+			switch y := f.If.Cond.(type) {
+			case *ssa.Extract:
+				if _, ok := y.Tuple.(*ssa.TypeAssert); ok {
+					return true
+				}
+			}
+		}
+	}
+	return false
 }
 
 // postDominatedSkip: h is inside an optional region (e.g. `if StateKey() != nil { h }`) that is
